@@ -305,7 +305,10 @@ PROPS = {
                 "random directions, shuffled order, 0-4 redeclarations, prices from nice/8-decimal/9+-decimal/huge/tiny classes, V in or outside the graph; stream malformed: zero, "
                 "negative, self-priced, duplicate, empty; every case: Insert+Normalize+Price+Valuate compared with the model under a random map-order oracle, repeated 3x (6x thorough) "
                 "with fresh registries, monitors priceOK/valuateOK/insertOK/directExact evaluated by the Lean driver on the real table; stream days: the same declarations dated over 1-6 "
-                "days plus days without prices, through journal.Builder (every third case: written to a file and loaded through journal.FromPath, i.e. parser and price.Create) and journal.ComputePrices, every day's table compared and monitored against the declarations up to that day; "
+                "days plus days without prices, through journal.Builder (every third case: written to a file and loaded through journal.FromPath, i.e. parser and price.Create) and journal.ComputePrices, every day's table compared and monitored against the declarations up to that day, and the journal's outcome monitored by insertOK (a zero price directive anywhere => rejected, else accepted); "
+                "stream requote: 1-3 pairs quoted 0-5 times a day in either direction over 1-4 dates with one or two zero/negative/tiny quotes placed alone, first, in the middle, last, "
+                "before/after/between same-direction or inverse quotes of their pair, twice, or re-quoted on an earlier/later date, file order by date, reversed or merged, same pipeline and monitors as days, "
+                "every 10th journal also through `knut balance -v V` (exit status and the invalid price error); "
                 "stream dec: decimal arithmetic against shopspring. A class = (shape, size, reached bucket, redeclared?, V in graph?) resp. (shape, days bucket, nil day?, carried day?).",
         "assumptions": ["shopspring/decimal arithmetic and String() behave as the Rat model (sampled on every run by the dec stream)",
                         "two declarations of the same unordered pair on one day are inserted in file order (in-process journal.Builder.Add order); concurrent file loading is C05/C19"],
